@@ -7,6 +7,7 @@ import CqlVerif.Drv.Sched
 import CqlVerif.Drv.Gate
 import CqlVerif.Drv.Prep
 import CqlVerif.Drv.Events
+import CqlVerif.Drv.Ks
 open CqlVerif.Drv
 
 def dispatch (stream op real : String) : Verdict :=
@@ -20,6 +21,7 @@ def dispatch (stream op real : String) : Verdict :=
   | "gate" => GateStream.handle op real
   | "prep" => PrepStream.handle op real
   | "events" => EventsStream.handle op real
+  | "ks" => KsStream.handle op real
   | _ => { kind := "diff", detail := s!"unknown stream {stream}" }
 
 partial def loop (h : IO.FS.Stream) (out : IO.FS.Stream) : IO Unit := do
